@@ -231,6 +231,8 @@ func (s *CAStore) writeCacheFile(name string, write func(w FileReadWriter) error
 
 // WriteBlobToCacheWithMetaInfo writes a blob and its metadata to disk,
 // potentially going through a write-through memory cache, if memory is available.
+// pieceLength must be the piece length configured for a blob of size bytes; if the
+// written blob turns out to have a different length it is cached without metainfo.
 func (s *CAStore) WriteBlobToCacheWithMetaInfo(
 	name string,
 	size uint64,
@@ -245,8 +247,28 @@ func (s *CAStore) WriteBlobToCacheWithMetaInfo(
 		log.With("blob", name).Errorf("error while trying to add the blob to memory cache: %w", err)
 		s.memCache.ReleaseReservation(size)
 	}
-	addMetadata := true
-	return s.writeCacheFile(name, write, addMetadata, pieceLength)
+	// pieceLength was chosen by the caller for a blob of exactly size bytes. If the
+	// blob that was written has a different length (the backend reported a stale or
+	// unknown size), metainfo built with it would not be the one configured for the
+	// blob: the blob is cached without metainfo and the caller, which knows the
+	// piece length configuration, generates it.
+	written := int64(-1)
+	counted := func(w FileReadWriter) error {
+		if err := write(w); err != nil {
+			return err
+		}
+		written = w.Size()
+		return nil
+	}
+	if err := s.writeCacheFile(name, counted, false, 0); err != nil {
+		return err
+	}
+	if uint64(written) != size {
+		log.With("name", name, "size", size, "written", written).
+			Warn("blob length differs from the expected size, leaving metainfo to the caller")
+		return nil
+	}
+	return s.generateMetadataFromFile(name, pieceLength)
 }
 
 // CheckInMemCache returns true if the blob is present in memcache
